@@ -67,6 +67,15 @@ def run(prop, tier, seed, work, ev):
     c = work.path("sig.cases")
     eng_funcs.gen_call(work, "sig", c, 2 if tier == "quick" else 3, 3, via="lit")
     files.append(("signature decision table", c, "search", None))
+    # hand-shaped families of the evaluation engine: texts that coincide under normalisation (a cache that exists under one feature
+    # set only would show here), aliasing, per-element temporaries
+    for fam in ("confuse", "alias", "inflate"):
+        c = work.path("pool.%s.cases" % fam)
+        with open(c, "w") as f:
+            for line in open(eng_eval.POOLS):
+                if '"fam": "%s"' % fam in line:
+                    f.write(line)
+        files.append((eng_eval.POOL_LABEL[fam], c, "search", eng_eval.POOLS + ".docs"))
     for label, cases, engine, docs in files:
         obs = {}
         for cfg, drv in drivers.items():
